@@ -40,8 +40,9 @@ def fresh_destination(R: Report, rule: str, f, dest_hint: str | None = None):
         if isinstance(n, ast.Name) and n.id == dest and isinstance(n.ctx, ast.Load):
             reads.append(n)
     bad_reads = []
+    vws = views_of(f, dest)
     for n in reads:
-        parent_ok = False
+        parent_ok = any(n is x for v_ in vws.values() for x in ast.walk(v_))
         for s in ast.walk(f.node):
             if isinstance(s, ast.Return) and s.value is n:
                 parent_ok = True
@@ -63,6 +64,22 @@ def fresh_destination(R: Report, rule: str, f, dest_hint: str | None = None):
     R.check(not bad_reads, rule, f, bad_reads[0] if bad_reads else f.node, f"{f.short}: the destination `{dest}` is only written, never read",
             f"`{dest}` is read at line {getattr(bad_reads[0], 'lineno', '?') if bad_reads else '?'}: a rewritten label can be rewritten again", via="fresh-destination")
     return dest, src_arg
+
+
+def views_of(f, dest: str) -> dict[str, ast.Subscript]:
+    """`frame = dest[t]` where `frame` is then used only as the base of subscript stores (`frame[mask] = label`): a numpy
+    view, the store writes through into dest[t][mask]"""
+    out: dict[str, ast.Subscript] = {}
+    for s in ast.walk(f.node):
+        if isinstance(s, ast.Assign) and len(s.targets) == 1 and isinstance(s.targets[0], ast.Name) and isinstance(s.value, ast.Subscript) \
+                and isinstance(s.value.value, ast.Name) and s.value.value.id == dest:
+            v = s.targets[0].id
+            ndefs = sum(1 for x in ast.walk(f.node) if isinstance(x, ast.Name) and x.id == v and isinstance(x.ctx, ast.Store))
+            loads = [x for x in ast.walk(f.node) if isinstance(x, ast.Name) and x.id == v and isinstance(x.ctx, ast.Load)]
+            store_bases = {id(t.value) for a in ast.walk(f.node) if isinstance(a, ast.Assign) for t in a.targets if isinstance(t, ast.Subscript)}
+            if ndefs == 1 and loads and all(id(x) in store_bases for x in loads):
+                out[v] = s.value
+    return out
 
 
 def run(P: Program, R: Report, tier: str) -> None:
@@ -149,13 +166,16 @@ def run(P: Program, R: Report, tier: str) -> None:
     dest, src = fresh_destination(R, "R19.2", g)
     if dest is not None:
         seg_param = g.params[1]
-        writes = [s for s in ast.walk(g.node) if isinstance(s, ast.Assign) and isinstance(s.targets[0], ast.Subscript) and norm(s.targets[0]).startswith(dest)]
+        vws = views_of(g, dest)
+        writes = [s for s in ast.walk(g.node) if isinstance(s, ast.Assign) and isinstance(s.targets[0], ast.Subscript)
+                  and (norm(s.targets[0]).startswith(dest) or (isinstance(s.targets[0].value, ast.Name) and s.targets[0].value.id in vws))]
         R.check(bool(writes), "R19.2", g, g.node, "labels are written through masks", "", via="syntax")
         for w in writes:
             t = w.targets[0]
-            # dest[time][mask] = label
-            ok = isinstance(t.value, ast.Subscript) and norm(t.value.value) == dest
-            time_idx = norm(t.value.slice) if ok else None
+            # dest[time][mask] = label   (or through a view: frame = dest[time]; frame[mask] = label)
+            base = vws[t.value.id] if isinstance(t.value, ast.Name) and t.value.id in vws else t.value
+            ok = isinstance(base, ast.Subscript) and norm(base.value) == dest
+            time_idx = norm(base.slice) if ok else None
             mask = t.slice if ok else None
             mask_src = None
             if isinstance(mask, ast.Name):
